@@ -157,6 +157,11 @@ func genWorkloadN(seed uint64, mix string, nested bool) (workload, simrt.FaultPl
 			// rarely a long table: object pools, slabs and buffers only wrap around here
 			cnt = 300 + r.Intn(900)
 		}
+		if r.Chance(0.0008) {
+			// very rarely a table of thousands of features: logs that are compacted, rings of
+			// thousands of slots, lanes hundreds deep
+			cnt = 2100 + r.Intn(4500)
+		}
 	}
 	// per-run bias: some targets never receive polygon output at all
 	starved := map[int]bool{}
@@ -241,6 +246,9 @@ func genWorkloadN(seed uint64, mix string, nested bool) (workload, simrt.FaultPl
 	}
 	if r.Chance(0.3) {
 		w.TgtYields = 1 + r.Intn(2)
+	}
+	if cnt > 2000 {
+		w.SnapYields, w.SrcYields = 0, 0 // (keeps such a run within a few seconds)
 	}
 	if r.Chance(0.25) {
 		w.FlushSleepMs, w.RecvSleepMs = map[string]int{}, map[string]int{}
@@ -509,6 +517,7 @@ type fakeTarget struct {
 	done    bool
 	got     []delivery
 	calls   int
+	nils    int // nil features received
 	// probes
 	startedAfterFirstSend bool
 	startedAfterClose     bool
@@ -527,6 +536,12 @@ func (t *fakeTarget) WriteFeatures(ch <-chan processing.Feature) {
 		f, ok := <-ch
 		if !ok {
 			break
+		}
+		if f == nil {
+			t.h.mu.Lock()
+			t.nils++
+			t.h.mu.Unlock()
+			continue
 		}
 		d := delivery{feat: f, g: f.Geometry()}
 		d.cols = append([]interface{}(nil), f.Columns()...)
@@ -674,6 +689,9 @@ func checkDelivery(w *workload, t *fakeTarget) *simh.Violation {
 	got := t.got
 	v := func(class, format string, args ...interface{}) *simh.Violation {
 		return &simh.Violation{Class: "delivery/" + class, Message: fmt.Sprintf("target %d: ", t.id) + fmt.Sprintf(format, args...)}
+	}
+	if t.nils > 0 {
+		return v("nil-feature", "%d nil features were sent to the target", t.nils)
 	}
 	if t.calls == 0 && len(exp) == 0 {
 		return nil // a target nothing is addressed to need not be started at all
@@ -1375,7 +1393,10 @@ func racePass(t *testing.T, job *simh.Job, out *simh.Out) {
 		// in the free-running pass the slowness knobs become tiny real pauses (see jitter);
 		// keep them small and only on short streams
 		if len(w.Features) > 30 {
-			w.SnapYields, w.SrcYields, w.TgtYields = 0, 0, 0
+			w.SnapYields, w.SrcYields = 0, 0
+			if len(w.Features) <= 2000 {
+				w.TgtYields = 0 // (a table of thousands keeps its slow targets: lagging and catching up matters there)
+			}
 		}
 		if p := job.Extra["stream"]; p != "" {
 			so, err := simh.OpenOut(p)
